@@ -429,6 +429,13 @@ class C05Gen(C12Gen):
             if rng.random() < 0.5:
                 return ["simul", vs, [var(vs[1]), var(vs[0])]]
             return ["simul", vs, [self.finite_rhs(vs[0]), self.finite_rhs(vs[1])]]
+        if r < 0.45 and self.flags and budget[0] > 1:
+            # a variable leaves its value set in the middle of the iteration and is folded back: t = t + g; t = t*(2 - t)
+            t = rng.choice(self.flags)
+            g = rng.choice(self.flags)
+            budget[0] -= 2
+            self._pending = ["assign", t, ["mul", var(t), ["sub", num(2), var(t)]]]
+            return ["assign", t, ["add", var(t), var(g)]]
         budget[0] -= 1
         t = rng.choice(self.all)
         if t in fin or (self.simple and rng.random() < 0.5):
@@ -448,6 +455,22 @@ class C05Gen(C12Gen):
         if rr < 0.85:
             return ["assign", t, self.draw(rng.choice(["Normal", "Uniform", "DistExp", "Beta", "Gamma", "Laplace"]), False)]
         return ["assign", t, self.finite_rhs(rng.choice(fin))]
+
+    _pending = None
+
+    def block(self, depth, budget, n, prefer=None):
+        out = []
+        for _ in range(n):
+            if budget[0] <= 0:
+                break
+            out.append(self.stmt(depth, budget))
+            if self._pending is not None:
+                out.append(self._pending)
+                self._pending = None
+        if not out:
+            budget[0] -= 1
+            out.append(["assign", self.target(), self.lin_expr()])
+        return out
 
     def _cond_vars(self, c):
         from .past import expr_vars
